@@ -4,7 +4,9 @@ Tie between /repo and the Lean slice (lean/ALV/{Model,Spec,Lemmas,Props,Driver}/
 lean/ALV/Gen/OpTable.lean):
 
 * `regenerate`   translator T1 (c01_t1.py): operator table + insertion logic + builder dict read from
-                 the source text of lazy_core.py / lazy_stream.py -> lean/ALV/Gen/OpTable.lean
+                 the source text of lazy_core.py / lazy_stream.py -> lean/ALV/Gen/OpTable.lean;
+                 translator c01_tr.py: the BODIES of StreamMeta.__binary__/__rbinary__/__unary__, Stream.__getattr__/__call__,
+                 lazy_misc.elementwise -> lean/ALV/Gen/C01Src.lean (programs; Props: src_*_is_model)
 * entry "optable" the OpMethod metadata and the dunders found on the real `Stream` class against the
                  Lean model of `_insert` / the metaclass (kind "model") and against the hand-written
                  specification table (kind "spec")
@@ -38,6 +40,7 @@ from common import err_kind
 
 warnings.simplefilter("ignore")      # MemoryLeakWarning of a thub whose copy is never read (call refused)
 from props import c01_t1
+from props import c01_tr
 from props import c01_flavours as fl
 from props import c01_exc as xc
 
@@ -61,6 +64,7 @@ RULE = ("expr: exhaustive cross 35 dunders x operand kinds x length pairs x call
         "generator / map / filter / Stream / thub inputs, by position and by keyword, with elements in the middle on which the function raises "
         "(domain errors, None, str, negative factorial), invalid logarithm bases by position / keyword; meta: classes built with a user's "
         "subclass of AbstractOperatorOverloaderMeta (subsets of the three builders x __operators__ / __without__ queries x names bound in the body); "
+        "translated source (regenerated before the build, no cases needed): the six function bodies of c01_tr.py; "
         "a case is non-trivial when the real expression delivers at least one item or the broadcast function "
         "is applied to at least one element; distinct = distinct JSON case")
 TRUSTED = [
@@ -69,6 +73,17 @@ TRUSTED = [
     "elementwise (modelled, not verified: CPython map/zip/itertools.repeat/cycle/chain, binary-operator dispatch of "
     "the interpreter incl. reflected-method priority)",
     "translator T1 harness/props/c01_t1.py (ast templates of _initialize/_insert/__new__; unknown shape = broken obligation)",
+    "translator harness/props/c01_tr.py (closure bodies -> lean/ALV/Gen/C01Src.lean): the python subset it assumes the usual semantics of "
+    "(`if T: return/raise`, `return`, conditional expression, `and` / `not` with short circuit, straight-line assignments to locals that are "
+    "substituted at their uses - sound here because the substituted expressions are tests and NOT-STARTED generator expressions without side "
+    "effects -, a local assigned in both branches of an if/else, the fixed try/except of the numpy test); the vocabulary mapping: xmap = builtin "
+    "map -> Iter.map1 / map2 / mapc false, generator expression -> Iter.mapc true, iter(self) = self._data = the Stream's iterator, "
+    "isinstance(x, Iterable / cls.__ignored_classes__ / STR_TYPES / SOME_GEN_TYPES) and issubclass(type(arg), Stream) -> the constructor tests "
+    "of Val / CKind (that SOME_GEN_TYPES, STR_TYPES, xmap, NEXT_NAME are defined in lazy_compat.py by the expected expressions and imported "
+    "unshadowed is checked on the source), type(arg)(data) -> draining `data` (BOut.cast), `func(*(args[:pos] + (x,) + args[pos+1:]), **kwargs)` "
+    "and `func(*args, **dict(it.chain(iteritems(kwargs), [(name, x)])))` -> the pre / post argument lists of Iter.mapc (kwFlat / kwSplit), "
+    "numpy classes do not occur (isNumpy = false); interpreters ALV/Model/C01Src.lean, C01SrcEw.lean; unknown syntax = TranslationError = "
+    "broken obligation; checked by translator-selftest (19 edited copies of a pinned source) on every run",
     "term evaluator of this module: `operator.<fn>` applied to the actual leaf elements",
     "harness/props/c01_flavours.py: which python object delivers the elements of a leaf (itertools / builtin iterators, lazy_itertools "
     "wrappers); an endless operand is shown to the model as its first n + 2 elements for an observation of n next() calls "
@@ -92,18 +107,23 @@ MANIFEST = {
     "text": "Lean 4 theorems (structural induction over expression trees of any depth, operands finite / empty / unequal / "
             "endless) about a hand-written executable model of StreamMeta's dunder builders, the iterators they create, "
             "the metaclass loop over the REGENERATED operator table, and the elementwise decorator; tied to /repo by "
-            "translator T1 (table + insertion logic read from the source on every run, re-proved by `decide`) and a "
+            "translator T1 (table + insertion logic read from the source on every run, re-proved by `decide`), by the body translator "
+            "c01_tr.py (the bodies of StreamMeta.__binary__/__rbinary__/__unary__, Stream.__getattr__/__call__ and lazy_misc.elementwise are "
+            "regenerated on every run as programs of a small deeply embedded language whose interpretation is PROVED equal to the hand-written "
+            "model functions: src_binary/rbinary/unary/getattr/call/elementwise_is_model) and a "
             "differential run in which the symbolic terms of the model/spec are evaluated with python's operator.* on the "
             "real elements; element operations that raise are inside the model (Iter.stepE / drainE / takeE over an arbitrary oracle `bad`, "
             "compositional outcome laws exc_map / exc_gen / exc_map2 / exc_chain / exc_take / exc_eval for all expression trees; "
             "elementwiseE for the broadcast decorator) and inside the tie (exceptions in the middle, then continued reads); classes built by "
             "any user of the metaclass (missing builders, operator queries) are modelled by installW",
-    "note": "Trusted: Lean kernel (axioms propext, Classical.choice, Quot.sound as reported in the evidence), translator T1, the term "
+    "note": "Trusted: Lean kernel (axioms propext, Classical.choice, Quot.sound as reported in the evidence), translator T1 and the body translator c01_tr.py (python subset + vocabulary mapping, see trusted base), the term "
             "evaluator and generators of harness/props/c01.py + c01_exc.py (oracle table = python's own verdict on the applications the model "
             "asks about), CPython's operator dispatch and itertools.  Element "
             "semantics is deliberately not modelled (free term algebra + an abstract `raises` oracle): the property is about wiring.  Known finding: "
             "Stream.__getattr__/__call__ end at the first element exception (generator expressions).",
-    "technique": "Lean 4 proof over an executable model + source-to-Lean table translator + symbolic differential correspondence",
+    "technique": "Lean 4 proof over an executable model + source-to-Lean translators (T1 operator table; c01_tr.py: bodies of the dunder "
+                 "builders, Stream.__getattr__/__call__ and elementwise regenerated as deep-embedded programs, proved equal to the model) + "
+                 "symbolic differential correspondence",
 }
 ASSUMPTIONS = [
     "element semantics (Python numbers) is not modelled: the theorems are over a free term algebra, i.e. about wiring; WHICH applications raise "
@@ -1751,13 +1771,54 @@ def classify(c, io, drv):
     return "expr:%s%s:wrong-element" % (what, osort)
 
 
+TRANSLATED = {
+    "under_translator": {
+        "OpMethod._initialize / OpMethod._insert / AbstractOperatorOverloaderMeta.__new__ (lazy_core.py)":
+            "T1 c01_t1.py -> Gen/OpTable.lean (table + constants of the insertion logic + builder dict; `decide` theorems optable_*, opget_*)",
+        "StreamMeta.__binary__ (lazy_stream.py)": "c01_tr.py -> Gen/C01Src.lean `binary` (deep: Src.Closure program); src_binary_is_model",
+        "StreamMeta.__rbinary__ (lazy_stream.py)": "c01_tr.py -> Gen/C01Src.lean `rbinary` (deep); src_rbinary_is_model",
+        "StreamMeta.__unary__ (lazy_stream.py)": "c01_tr.py -> Gen/C01Src.lean `unary` (deep); src_unary_is_model",
+        "Stream.__getattr__ (lazy_stream.py)": "c01_tr.py -> Gen/C01Src.lean `getattr` (deep); src_getattr_is_model, src_getattr_next",
+        "Stream.__call__ (lazy_stream.py)": "c01_tr.py -> Gen/C01Src.lean `call` (deep); src_call_is_model",
+        "elementwise (lazy_misc.py)": "c01_tr.py -> Gen/C01Src.lean `elementwise` (deep: Src.EwProg decision tree, wrapper executed "
+                                      "symbolically); src_elementwise_is_model",
+    },
+    "not_translated": {
+        "lazy_math / lazy_midi: which functions are wrapped with elementwise, with which (name, pos)":
+            "a loop over `math.__dict__` plus hand-decorated functions: the set is discovered at run time by the harness "
+            "(discover_bcast) and each function is run differentially; element functions are python numbers (not modelled)",
+        "Stream.__init__, Stream.map, Stream.__abs__, Stream.append": "hand-written model only (streamInit1/2, evalPy): tied by the "
+            "differential run; not in this round's time box",
+        "CPython map / zip / itertools (Iter.step, Iter.stepE)": "C code of the interpreter, not library source: modelled, checked differentially",
+    },
+}
+
+
 def regenerate(eng):
-    return c01_t1.regenerate(common.REPO, common.LEAN)
+    """ both translators run; a failure of one does not stop the other (its last good file stays) """
+    info, errs = {}, []
+    for name, fn in (("T1 operator table", c01_t1.regenerate), ("closure bodies", c01_tr.regenerate)):
+        try:
+            info[name] = fn(common.REPO, common.LEAN)
+        except Exception as e:
+            info[name] = "FAILED"
+            errs.append("%s: %s: %s" % (name, type(e).__name__, e))
+    eng.extra["translated"] = dict(TRANSLATED, regenerate=info)
+    if errs:
+        raise c01_tr.TranslationError("; ".join(errs))
+    return info
 
 
 def extra_checks(eng):
     for x in xc.extra_checks(eng):
         yield x
+    try:
+        ok, detail, seen, same = c01_tr.selftest(common.REPO, common.LEAN)
+    except Exception as e:
+        ok, detail, seen, same = False, "self-test could not run: %r" % (e,), [], False
+    eng.extra.setdefault("translated", dict(TRANSLATED))["selftest"] = {
+        "edits": [list(x) for x in seen], "source_translates_like_the_pinned_copy": same}
+    yield ("translator-selftest (%d edited copies seen, pinned source reproduces the committed Gen/C01Src.lean)" % len(seen), ok, detail)
 
 
 # ------------------------------------------------------------------------------------------------
